@@ -239,7 +239,9 @@ func (target *TargetGeopackage) writeFeatures(features []processing.Feature) {
 			log.Fatalf("Could not create a binary geometry: %s", err)
 		}
 
-		data := f.Columns()
+		// copy, because the columns are shared with the features for the other tile matrices
+		data := make([]interface{}, 0, len(f.Columns())+1)
+		data = append(data, f.Columns()...)
 		data = append(data, sb)
 
 		_, err = stmt.Exec(data...)
